@@ -4,6 +4,7 @@ import (
 	"bytes"
 	"encoding/json"
 	"errors"
+	"io"
 	"os"
 	"path/filepath"
 	"strings"
@@ -92,7 +93,12 @@ func runC10(t *mon.T, raw json.RawMessage) {
 	var wrapped []byte
 	{
 		var out bytes.Buffer
-		if err := carv2.WrapV1(bytes.NewReader(x), &out, wopts...); err != nil {
+		var wsrc io.ReadSeeker = bytes.NewReader(x)
+		if len(x)%3 == 0 {
+			wsrc = lab.EOFSeeker{R: bytes.NewReader(x)} // the last bytes come together with io.EOF
+			t.Cover("wrap:source-returns-data+EOF")
+		}
+		if err := carv2.WrapV1(wsrc, &out, wopts...); err != nil {
 			t.Violatef("WrapV1/valid-input/error", "WrapV1 failed: %v", err)
 		} else {
 			checkWrap("WrapV1", out.Bytes())
